@@ -144,3 +144,7 @@ theorem capDist_isDist (n : Nat) (w : Nat → ℝ) (hw : ∀ i, 0 ≤ w i) (cap 
         | exact (min_le_right _ _).trans ht
 
 end OdlModel.C02
+
+theorem OdlModel.Weighting.Expo.isTwo_iff (p : OdlModel.Weighting.Expo ℝ) : p.isTwo = true ↔ p = .two := by
+  cases p <;> simp [OdlModel.Weighting.Expo.isTwo]
+
